@@ -19,7 +19,7 @@ def gen_consts(steps, **over):
     c = dict(InCalls=[('ia1', 1), ('ia2', 1), ('ia2', 2)], OutAliases=['oa1', 'oa2'], Vals=['v1'],
              InFaults=['none', 'keyFail', 'prepFail'], OutFaults=['none', 'prepFail'],
              Bodies=['plain', 'interrupt', 'discards', 'forces'], OutResults=[('val', 'v1'), ('exc', 'E1'), ('int', 'BI')],
-             Ctl=['discard', 'force'], Ends=['ret', 'raise', 'interrupt'],
+             Ctl=['discard', 'force', 'disable'], Ends=['ret', 'raise', 'interrupt'],
              Classes=[K('K1'), K('K2', rate='frac')], Draws=['low', 'high'], SaveFails=[False, True],
              MaxSteps=steps, MaxRuns=2, MaxRecs=1, Modes=['same'])
     c.update(over)
